@@ -123,6 +123,13 @@ static URI_INLINE UriBool URI_FUNC(EqualsAuthority)(const URI_TYPE(Uri) * first,
 					&second->hostData.ipFuture)) ? URI_TRUE : URI_FALSE;
 	}
 
+	/* Registered name, do not mistake it for an IP literal of the same text */
+	if ((second->hostData.ip4 != NULL)
+			|| (second->hostData.ip6 != NULL)
+			|| (second->hostData.ipFuture.first != NULL)) {
+		return URI_FALSE;
+	}
+
 	return !URI_FUNC(CompareRange)(&first->hostText, &second->hostText)
 			? URI_TRUE : URI_FALSE;
 }
